@@ -8,6 +8,8 @@
 //! * `pyref`  -- one `python3 -c` call to `hashlib.sha3_256` to cross-check the Keccak above.
 //! * `child`  -- run a sweep over hostile inputs in child processes (re-exec of the same binary)
 //!               so that an abort (allocation failure, stack overflow) is observed, not suffered.
+//! * `tup`, `tupcheck`, `hostile` -- enum_tuple (C16): subject adaptors, boundary domains and the
+//!               reference order; the typed checks; the parser programs run on hostile bytes.
 
 pub mod tup;
 pub mod tupcheck;
@@ -239,21 +241,7 @@ pub mod child {
 
     use vcore::{Report, Value, Violation, json};
 
-    /// What a child hands back (sets travel as hash lists).
-    #[derive(Default)]
-    pub struct Partial {
-        pub evaluations: u64,
-        pub transitions: u64,
-        pub traces_validated: u64,
-        pub states: Vec<u64>,
-        pub nontrivial: Vec<u64>,
-        pub outcomes: Vec<u64>,
-        pub counters: Vec<(String, u64)>,
-        pub violations: Vec<(String, String, String, Value)>,
-        pub violation_counts: Vec<(String, u64)>,
-        pub samples: Vec<Value>,
-    }
-
+    /// What a child hands back: a Report as JSON, the hash sets as lists.
     pub fn report_to_json(r: &Report) -> Value {
         json!({
             "evaluations": r.evaluations,
